@@ -307,7 +307,7 @@ def run(run: Run):
     from .common import borrow
     from . import c18
     run.rule('C11.R6', 'the reader delivers every row and cell of an area (append-only data lists; shared with C18.R1)')
-    borrow(run, 'C11.R6', c18.r1, src)
+    borrow(run, 'C11.R6', c18.r1_any, src)
     # a function result depends on its arguments only: no runtime helper keeps results or other state between calls
     from .common import borrow as _borrow
     from . import c08 as _c08
